@@ -11,16 +11,19 @@ import xt
 from xt import PNode
 
 THEOREMS = ["XmlDiffModel.C11_table_injective", "XmlDiffModel.C11_table_stable", "XmlDiffModel.C11_fresh_placeholder",
-            "XmlDiffModel.C11_roundtrip_element", "XmlDiffModel.C11_roundtrip_element_fresh_maker"]
+            "XmlDiffModel.C11_roundtrip_element", "XmlDiffModel.C11_roundtrip_element_fresh_maker",
+            "XmlDiffModel.C11_roundtrip_tree", "XmlDiffModel.C11_do_tree_keeps_invariants", "XmlDiffModel.C11_roundtrip_tree_fresh_maker"]
 PARTIAL = {
-    "C11_roundtrip_tree": "proved: the round trip of one text element - undo_element(do_element(e)) has the normal form of e (restored "
-    "inline elements are copies, an empty text or tail is not told from a missing one) - on the fresh maker and on every maker state "
-    "satisfying the table / heap invariants, for any nesting of formatting and single elements (C11_roundtrip_element, "
-    "C11_roundtrip_element_fresh_maker; texts without characters from U+E000 on, node identities new to the maker); and for every "
-    "history of get_placeholder calls on one maker: the table is injective in both directions, entries are never changed or removed, "
-    "equal keys get equal placeholders, a new placeholder is fresh. NOT proved: the round trip of a whole document through do_tree / "
-    "undo_tree (several text elements, text tags nested in text tags, which go through the heap of detached elements); decided per "
-    "run by the round-trip oracle on the real maker and by unit U7 (model vs. code on do_tree / table / undo_tree).",
+    "C11_nested_text_tags": "proved: the round trip of a whole document - undo_element on the root of what do_tree returned (what undo_tree "
+    "calls) has the normal form of the document (restored inline elements are copies, an empty text or tail is not told from a missing "
+    "one) - on the fresh maker and on every maker state satisfying the table / heap invariants, which do_tree preserves, hence for a "
+    "maker that has already processed other documents; any nesting of formatting and single elements inside the text elements "
+    "(C11_roundtrip_tree, C11_do_tree_keeps_invariants, C11_roundtrip_tree_fresh_maker, C11_roundtrip_element; texts without "
+    "characters from U+E000 on, node identities new to the maker); and for every history of get_placeholder calls on one maker: the "
+    "table is injective in both directions, entries are never changed or removed, equal keys get equal placeholders, a new "
+    "placeholder is fresh. NOT proved: documents in which a text tag lies inside a text tag (the inner one is substituted while "
+    "detached, through the heap); decided per run by the round-trip oracle on the real maker and by unit U7 (model vs. code on "
+    "do_tree / table / undo_tree).",
 }
 LEAN_MODULES = ["XmlDiffModel.Props.C11"]
 SOURCES = ["formatting.PlaceholderMaker"]
